@@ -778,6 +778,7 @@ def search_warm_cold(ctx: Ctx, only: list[tuple[str, dict[str, int], list[list[s
 				ops = [['run', '1'], ['edit', m1, str(4 * (variants[m1] // 4) + (variants[m1] + 1 + rng.randrange(3)) % 4)], ['run', '1'],
 					['edit', m2, str(rng.randrange(N_VARIANTS))], ['run', rng.choice(['0', '1'])]]
 				histories.append((shape, variants, ops))
+		n_after_targeted = len(histories)
 		# flow-through histories, always run: every module takes its variable from its LAST import (var_mode 2) and a local from
 		# its FIRST (loc_mode 1), so a type declared in a leaf reaches the top; then the declared type of a module that is
 		# imported after an already visited one is changed (diamond2: `e`), and two leaves exchange their exact contents (swap)
@@ -831,17 +832,21 @@ def search_warm_cold(ctx: Ctx, only: list[tuple[str, dict[str, int], list[list[s
 		bad = rng.choice([m for m in mods if graph[m]])
 		variants[bad] += 2 * N_VARIANTS
 		histories.append((shape, variants, [['run', '1'], ['run', '1'], ['run', '0'], ['edit', bad, str(variants[bad] - 2 * N_VARIANTS)], ['run', '1']]))
-		# … these four run right after the corpus (the run budget of the quick tier ends the list early)
+		# the corpus and the directed histories (everything after the targeted block) run on EVERY seed, exempt from the run budget;
+		# the budget only ends the targeted and the random histories early
 		n_corpus = sum(1 for rec in load_corpus() if rec.get('search') == 'warm-cold')
-		histories[n_corpus:n_corpus] = [histories.pop(), histories.pop(), histories.pop(), histories.pop()][::-1]
+		histories = histories[:n_corpus] + histories[n_after_targeted:] + histories[n_corpus:n_after_targeted]
+		n_always = n_corpus + (len(histories) - n_after_targeted)
+	else:
+		n_always = len(histories)
 	n_random = ctx.scale(5, 80) if only is None else 0
 	hist: dict[str, int] = {}
 	seen: set[str] = set()
-	budget_runs = -(-ctx.scale(84, 400) // part[1])
+	budget_runs = -(-ctx.scale(44, 400) // part[1])		# runs of the targeted and random histories (the corpus and the directed ones are not counted)
 	runs = 0
 	dl = new_deadline('search warm-cold', ctx.scale(300, 1200))
 	for hi in range(len(histories) + n_random):
-		if runs >= budget_runs:
+		if runs >= budget_runs and hi >= n_always:
 			break
 		if only is None and dl.over(len(histories) + n_random - hi):
 			break
@@ -887,7 +892,7 @@ def search_warm_cold(ctx: Ctx, only: list[tuple[str, dict[str, int], list[list[s
 				_, r = case.apply(op)
 				assert r is not None
 				warm = outcome(case.proj, r)
-				runs += 2
+				runs += 2 if hi >= n_always else 0
 				res.cases += 1
 				seen.add(json.dumps([shape, variants, ops_done], sort_keys=True))
 				hist[f'{shape}:run{op[1]}'] = hist.get(f'{shape}:run{op[1]}', 0) + 1
